@@ -241,6 +241,11 @@ class Module:
                     if parts[1] in self.consts.get(c, {}):
                         return (self.consts[c][parts[1]],)
             return None
+
+        def funcs(name):
+            f = self.funcs.get(name)
+            return f.node if f is not None and isinstance(f.node, ast.FunctionDef) else None
+        look.funcs = funcs
         return look
 
     def fold(self, e, scope='', env=None):
